@@ -260,3 +260,18 @@ with wf_type (t : ctype) : bool :=
   | CType t None => wf_ty t
   | CType t (Some (bl, anns)) => wf_ty t && wf_blank bl && wf_anns anns
   end.
+
+(* ---------- typedef:  typedef <blank> T <blank> alias [blank] [annotations] [separator] ---------- *)
+Record ctypedef := mkCTypedef { ctd_b1 : blank; ctd_type : ctype; ctd_b2 : blank; ctd_alias : Ident; ctd_b3 : blank;
+                                ctd_anns : option (list cann); ctd_sep : csep }.
+Definition pr_oanns (a : option (list cann)) (k : list byte) : list byte :=
+  match a with Some l => pr_anns l k | None => k end.
+Definition pr_typedef (c : ctypedef) (k : list byte) : list byte :=
+  txt "typedef" ++ pr_blank (ctd_b1 c) (pr_type (ctd_type c) (pr_blank (ctd_b2 c) (ctd_alias c ++ pr_blank (ctd_b3 c)
+    (pr_oanns (ctd_anns c) (pr_sep (ctd_sep c) k))))).
+Definition erase_typedef (c : ctypedef) : Typedef :=
+  mkTypedef (erase_type (ctd_type c)) (ctd_alias c) (match ctd_anns c with Some l => erase_anns l | None => [] end).
+Definition wf_typedef (c : ctypedef) : bool :=
+  wf_blank (ctd_b1 c) && negb (is_nil (ctd_b1 c)) && wf_type (ctd_type c) && wf_blank (ctd_b2 c) && negb (is_nil (ctd_b2 c)) &&
+  is_ident (ctd_alias c) && negb (bytes_eq (ctd_alias c) (txt "cpp_type")) && wf_blank (ctd_b3 c) &&
+  match ctd_anns c with Some l => wf_anns l | None => true end && wf_sep (ctd_sep c).
